@@ -254,3 +254,103 @@ contract(
     props=("C03",), domain="skip",
     canaries=[("end_of_first_bin", "cnarr.end.iat[-1]", "cnarr.end.iat[0]")],
 )
+
+
+# ----------------------------------------------------------------------------- deductive: transfer_fields (every method's last step)
+# Each segment's weight is the sum, and its depth the weight-averaged depth, of the bins overlapping it; the first start and
+# the last end are stretched to the arm's first / last bin; the other columns stay as the method left them.
+from .c_call import CHROM, GENE      # noqa: E402
+
+_TSEG = ObjT("CopyNumArray", data=TabT(index="range", chromosome=CHROM, start=Int, end=Int, gene=GENE, log2=Real, probes=Int), meta=DictT())
+_TBIN = ObjT("CopyNumArray", data=TabT(index="any", chromosome=CHROM, start=Int, end=Int, gene=GENE, log2=Real, depth=Real, weight=Real), meta=DictT())
+_TB = TabT(index="range", chromosome=CHROM, start=Int, end=Int, gene=GENE, log2=Real, depth=Real, weight=Real)
+_TS = TabT(index="range", chromosome=CHROM, start=Int, end=Int, gene=GENE, log2=Real, probes=Int)
+_SLO, _SHI = "uf_int('slice_lo', q)", "uf_int('slice_hi', q)"
+
+contract(
+    "skgenome/intersect.py::iter_slices",
+    params=dict(table=_TB, other=_TS, mode=Lit("outer"), keep_empty=Lit(False)),
+    yields=VecT(Int), trusted=True,
+    requires=[
+        # rows of one chromosome are consecutive and sorted, none nested in another ...
+        "forall(0, len(table), lambda a: forall(0, len(table), lambda b: implies(a <= b and table.chromosome[a] == table.chromosome[b], "
+        "table.start[a] <= table.start[b] and table.end[a] <= table.end[b] and "
+        "forall(0, len(table), lambda c: implies(a <= c and c <= b, table.chromosome[c] == table.chromosome[a])))))",
+        # ... and every range overlaps at least one row (so that keep_empty=False skips nothing)
+        "forall(0, len(other), lambda q: exists(0, len(table), lambda r: table.chromosome[r] == other.chromosome[q] and "
+        "table.end[r] > other.start[q] and table.start[r] < other.end[q]))",
+    ],
+    ensures=[
+        ("one_index_array_per_range", "len(result) == len(other)"),
+        ("block_of_overlapping_rows", "forall(0, len(other), lambda q: let(lambda lo, hi: 0 <= lo and lo < hi and hi <= len(table) and "
+                                      "len(result[q]) == hi - lo and forall(0, hi - lo, lambda m: result[q][m] == lo + m) and "
+                                      "forall(0, len(table), lambda r: (lo <= r and r < hi) == (table.chromosome[r] == other.chromosome[q] and "
+                                      "table.end[r] > other.start[q] and table.start[r] < other.end[q])), SLO, SHI))".replace("SLO", _SLO).replace("SHI", _SHI)),
+    ],
+    props=(), domain="skip",
+    notes="assumed where transfer_fields calls it (sorted bins, every segment overlapping at least one bin, so that "
+          "keep_empty=False skips nothing): the positions of the bins overlapping range q are the block [slice_lo(q), "
+          "slice_hi(q)); the bounded C07 contracts check iter_ranges_of / by_ranges built on the same kernel",
+)
+
+_WSUM = "sumof(Vec(SHI - SLO, lambda m: cnarr.data.weight[SLO + m]))".replace("SLO", _SLO).replace("SHI", _SHI)
+_DSUM = "sumof(Vec(SHI - SLO, lambda m: cnarr.data.depth[SLO + m] * cnarr.data.weight[SLO + m]))".replace("SLO", _SLO).replace("SHI", _SHI)
+# the same sums over the index arrays the loop iterates over (the code's own vectors)
+_WSUM_L = "sumof(Vec(len(iter_[q][1]), lambda m: cnarr.data.weight[iter_[q][1][m]]))"
+_DSUM_L = "sumof(Vec(len(iter_[q][1]), lambda m: cnarr.data.depth[iter_[q][1][m]] * cnarr.data.weight[iter_[q][1][m]]))"
+contract(
+    "cnvlib/segmentation/__init__.py::transfer_fields",
+    params=dict(segments=_TSEG, cnarr=_TBIN),
+    returns=ObjT("CopyNumArray"),
+    requires=["len(cnarr.data) >= 1", "len(segments.data) >= 1",
+              # the bins: positive length, rows of one chromosome consecutive and sorted, none nested in another
+              "forall(0, len(cnarr.data), lambda r: cnarr.data.start[r] < cnarr.data.end[r])",
+              "forall(0, len(cnarr.data), lambda a: forall(0, len(cnarr.data), lambda b: implies(a <= b and cnarr.data.chromosome[a] == cnarr.data.chromosome[b], "
+              "cnarr.data.start[a] <= cnarr.data.start[b] and cnarr.data.end[a] <= cnarr.data.end[b] and "
+              "forall(0, len(cnarr.data), lambda c: implies(a <= c and c <= b, cnarr.data.chromosome[c] == cnarr.data.chromosome[a])))))",
+              # every segment overlaps at least one bin
+              "forall(0, len(segments.data), lambda q: exists(0, len(cnarr.data), lambda r: cnarr.data.chromosome[r] == segments.data.chromosome[q] and "
+              "cnarr.data.end[r] > segments.data.start[q] and cnarr.data.start[r] < segments.data.end[q]))"],
+    loops={0: dict(inv=[
+        ("lengths", "len(seg_weights) == len(segments.data) and len(seg_depths) == len(segments.data) and len(seg_genes) == len(segments.data)"),
+        ("weights_summed", "forall(0, i_, lambda q: seg_weights[q] == WSUM)".replace("WSUM", _WSUM_L), ["lengths"]),
+        ("depths_averaged", "forall(0, i_, lambda q: seg_depths[q] == ite(WSUM > 0, DSUM / WSUM, 0.0))".replace("WSUM", _WSUM_L).replace("DSUM", _DSUM_L), ["lengths"]),
+    ])},
+    ensures=[
+        ("same_rows", "len(result.data) == len(segments.data)"),
+        # the first segment's start and the last segment's end are stretched to the first / last bin (when on the same
+        # chromosome); every other coordinate, and log2 and probes, stay as the segmentation method left them
+        ("ends_stretched_to_the_bins", "forall(0, len(result.data), lambda q: "
+                                       "result.data.start[q] == ite(q == 0 and old(segments.data.chromosome[0]) == cnarr.data.chromosome[0], cnarr.data.start[0], old(segments.data.start[q])) and "
+                                       "result.data.end[q] == ite(q == len(result.data) - 1 and old(segments.data.chromosome[len(segments.data) - 1]) == cnarr.data.chromosome[len(cnarr.data) - 1], "
+                                       "cnarr.data.end[len(cnarr.data) - 1], old(segments.data.end[q])))"),
+        ("other_columns_kept", "forall(0, len(result.data), lambda q: result.data.chromosome[q] == old(segments.data.chromosome[q]) and "
+                               "result.data.log2[q] == old(segments.data.log2[q]) and result.data.probes[q] == old(segments.data.probes[q]))"),
+        # stepping stones: the sums over the index arrays that iter_slices handed out, and what those arrays are
+        ("weights_over_index_arrays", "forall(0, len(result.data), lambda q: result.data.weight[q] == WSUM)".replace("WSUM", _WSUM_L.replace("iter_", "iter0_"))),
+        ("depths_over_index_arrays", "forall(0, len(result.data), lambda q: result.data.depth[q] == ite(WSUM > 0, DSUM / WSUM, 0.0))"
+                                     .replace("WSUM", _WSUM_L.replace("iter_", "iter0_")).replace("DSUM", _DSUM_L.replace("iter_", "iter0_"))),
+        ("index_arrays_are_the_overlapping_bins", "len(iter0_) == len(result.data) and forall(0, len(result.data), lambda q: let(lambda lo, hi: 0 <= lo and lo < hi and hi <= len(cnarr.data) and "
+                                                  "len(iter0_[q][1]) == hi - lo and forall(0, hi - lo, lambda m: iter0_[q][1][m] == lo + m) and "
+                                                  "forall(0, len(cnarr.data), lambda r: (lo <= r and r < hi) == (cnarr.data.chromosome[r] == result.data.chromosome[q] and "
+                                                  "cnarr.data.end[r] > result.data.start[q] and cnarr.data.start[r] < result.data.end[q])), SLO, SHI))".replace("SLO", _SLO).replace("SHI", _SHI)),
+        # each segment's weight is the sum, and its depth the weight-averaged depth, of the bins overlapping it: the block
+        # [slice_lo(q), slice_hi(q)) of the bin table
+        ("weights_summed", "forall(0, len(result.data), lambda q: result.data.weight[q] == WSUM)".replace("WSUM", _WSUM),
+         ["weights_over_index_arrays", "index_arrays_are_the_overlapping_bins", "same_rows", "-path"]),
+        ("depths_averaged", "forall(0, len(result.data), lambda q: result.data.depth[q] == ite(WSUM > 0, DSUM / WSUM, 0.0))".replace("WSUM", _WSUM).replace("DSUM", _DSUM),
+         ["depths_over_index_arrays", "index_arrays_are_the_overlapping_bins", "same_rows", "-path"]),
+    ],
+    ghost=dict(chain_ensures=True),
+    modifies=("segments", "segments.data"),
+    props=("C03",), domain="skip",
+    canaries=[("unweighted_depth", "seg_dp = np.average(bin_depths[bin_idx], weights=bin_weights[bin_idx])", "seg_dp = bin_depths[bin_idx].mean()"),
+              ("weight_of_first_bin", "seg_wt = bin_weights[bin_idx].sum()", "seg_wt = bin_weights[bin_idx][0]"),
+              ("end_not_stretched", 'segments.data.iloc[-1, segments.data.columns.get_loc("end")] = bins_end', "pass"),
+              ("start_stretched_to_the_last_bin", 'segments.data.iloc[0, segments.data.columns.get_loc("start")] = bins_start',
+               'segments.data.iloc[0, segments.data.columns.get_loc("start")] = cnarr.start.iat[-1]'),
+              ("columns_swapped", "gene=seg_genes, weight=seg_weights, depth=seg_depths", "gene=seg_genes, weight=seg_depths, depth=seg_weights")],
+    notes="verified for bin tables with depth and weight columns and segment tables with default row labels; the gene-name "
+          "column (distinct meaningful names joined by commas) is executed but not specified here -- the bounded C03 "
+          "contracts check it; iter_slices is assumed (see its contract)",
+)
